@@ -39,6 +39,12 @@ def run(ctx):
     # been publishing the same Unknown record for a while), and only then a worker dies
     for site, action in (("poller.loop", "panic"), ("poller.recv", "return"), ("writer.recv", "panic"), ("writer.done", "return")):
         plans.append({"binary": "hooked", "site": site, "hit": 14 if site.startswith("poller") else 14, "action": action, "chronyd": "answer", "chronyd_script": [[2.6, "absent"]], "fire_within_s": 60})
+    # chronyd answers promptly for a while, then persistently slower (80 ms, 400 ms per reply: a loaded or
+    # remote chronyd), and only then the writer dies: a poller that has adapted to the quick replies must
+    # still hear the abort
+    for site, action in (("writer.recv", "panic"), ("writer.done", "return")):
+        for slow in (("slow80",) if q else ("slow80", "slow400")):
+            plans.append({"binary": "hooked", "site": site, "hit": 7, "action": action, "chronyd": "answer", "chronyd_script": [[2.2, slow]], "fire_within_s": 60})
     # environment: somebody else (a second instance, a backup tool, a previous instance not yet gone) holds a
     # lock on the segment file for the whole run; a worker then dies
     for lock in ("flock", "fcntl"):
@@ -86,7 +92,7 @@ def run(ctx):
             continue
         ob = json.load(open(o))[0]
         name = ob.get("site") or ob.get("natural")
-        key = "%s|%s|hit%s|chronyd-%s%s%s" % (name, ob.get("action", "natural"), ob.get("hit", "-"), ob["chronyd"], "-then-absent" if ob.get("chronyd_script") else "",
+        key = "%s|%s|hit%s|chronyd-%s%s%s" % (name, ob.get("action", "natural"), ob.get("hit", "-"), ob["chronyd"], ("-then-" + "-".join(m for _t, m in pl["chronyd_script"])) if pl.get("chronyd_script") else "",
                                               ("|segment-%s-%s-by-another-process" % (pl.get("segment_before"), pl["segment_lock"])) if pl.get("segment_lock") else "")
         if not ob["fired"]:
             if pl.get("optional_fault"):
